@@ -332,7 +332,7 @@ func init() {
 	})
 
 	register(&Rule{
-		ID: "C15.R1", Props: []string{"C15", "C09"}, Min: 4,
+		ID: "C15.R1", Props: []string{"C15", "C09", "C07"}, Min: 4,
 		Doc: "no partial or failed cache entry: the only update of the template cache is reachable solely after both the load and the parse returned a nil error, stores DOM, front-matter and mtime that come from this call's own load/parse/Stat, and what the function returns on the reload path comes from that same load (never from the old entry)",
 		Run: func(p *Prog, c *Ctx) {
 			fn := p.MustFn("(*vuego.Vue).loadCachedWithFrontMatter")
